@@ -266,7 +266,33 @@ fn judge_real(ctx: &mut Ctx, c: &CaseIn, parts: &[Vec<usize>], out: &Out, specs:
     let mut mt = vec![];
     may_truncate(c.nodes, c.docs, parts, c.q, &mut mt);
     if !mt.is_empty() { ctx.report.count("terms:segment-truncation-possible"); }
-    let mut cx = CmpCtx { no_segments, may_truncate: mt.clone(), skip_subs_at: vec![], skip_metrics: vec![], lenient_empty_composite: false, notes: vec![] };
+    // exactly one segment holds documents: truncation cannot change the shown buckets
+    let single_segment = parts.iter().filter(|p| !p.is_empty()).count() == 1;
+    // expected error bound of top-level terms nodes in that case: the count of bucket number
+    // `segment_size` (0-based) in request order among ALL buckets of the segment (before min_doc_count)
+    let mut seg_cut: std::collections::BTreeMap<String, u64> = Default::default();
+    if single_segment {
+        let matching: Vec<&MDoc> = c.docs.iter().filter(|d| c.q.matches(d)).collect();
+        for n in c.nodes.iter() {
+            if let Agg::Terms { field, size, seg, mdc, order, missing } = &n.agg {
+                let (_, segsz, _, ord) = terms_defaults(*size, *seg, *mdc, order);
+                if n.opt.sub_order.is_some() || n.opt.include.is_some() || n.opt.exclude.is_some() || *mdc == Some(0) { continue; }
+                let mut counts: std::collections::BTreeMap<i64, u64> = Default::default();
+                for d in &matching { for k in term_keys(*field, *missing, d) { *counts.entry(k).or_insert(0) += 1; } }
+                let mut v: Vec<(i64, u64)> = counts.into_iter().collect();
+                match ord {
+                    TOrd::CountDesc => v.sort_by(|a, b| b.1.cmp(&a.1)),
+                    TOrd::CountAsc => v.sort_by(|a, b| a.1.cmp(&b.1)),
+                    TOrd::KeyAsc => v.sort_by(|a, b| a.0.cmp(&b.0)),
+                    TOrd::KeyDesc => v.sort_by(|a, b| b.0.cmp(&a.0)),
+                }
+                // under the rendered key order of ip / date / f64 keys the cut position is not the column order's: skip
+                if matches!(ord, TOrd::KeyAsc | TOrd::KeyDesc) && matches!(field, Fd::Ip | Fd::D | Fd::Fl) { continue; }
+                if v.len() > segsz { seg_cut.insert(n.name.clone(), v[segsz].1); }
+            }
+        }
+    }
+    let mut cx = CmpCtx { no_segments, may_truncate: mt.clone(), single_segment, seg_cut_count: seg_cut.clone(), skip_err_bound: false, skip_subs_at: vec![], skip_metrics: vec![], lenient_empty_composite: false, notes: vec![] };
     for ti in 0..c.nodes.len() {
     let (tn, tc) = (&c.nodes[ti..ti + 1], &crs[ti..ti + 1]);
     if let Err((whr, what)) = compare(tn, tc, &srs[ti..ti + 1], &mut cx) {
@@ -274,7 +300,7 @@ fn judge_real(ctx: &mut Ctx, c: &CaseIn, parts: &[Vec<usize>], out: &Out, specs:
         let mut explained = None;
         if !no_segments {
             for (i, alt) in specs.alts.iter().enumerate() {
-                let mut cx2 = CmpCtx { no_segments, may_truncate: mt.clone(), skip_subs_at: vec![], skip_metrics: vec![], lenient_empty_composite: false, notes: vec![] };
+                let mut cx2 = CmpCtx { no_segments, may_truncate: mt.clone(), single_segment, seg_cut_count: seg_cut.clone(), skip_err_bound: false, skip_subs_at: vec![], skip_metrics: vec![], lenient_empty_composite: false, notes: vec![] };
                 if alt[ti] != specs.base[ti] && compare(tn, tc, &alt[ti..ti + 1], &mut cx2).is_ok() { explained = Some(i); break; }
             }
         }
@@ -286,7 +312,7 @@ fn judge_real(ctx: &mut Ctx, c: &CaseIn, parts: &[Vec<usize>], out: &Out, specs:
             let mut dup = vec![];
             dup_nodes(tn, &specs.base[ti..ti + 1], &specs.alts[0][ti..ti + 1], &mut dup);
             for (i, alt) in [(0usize, &specs.alts[0]), (2usize, &specs.alts[2])] {
-                let mut cx3 = CmpCtx { no_segments, may_truncate: mt.clone(), skip_subs_at: dup.clone(), skip_metrics: suspicious_metrics(c.nodes, c.docs, parts, false), lenient_empty_composite: composite_below_mdc0_terms(c.nodes, false), notes: vec![] };
+                let mut cx3 = CmpCtx { no_segments, may_truncate: mt.clone(), single_segment, seg_cut_count: seg_cut.clone(), skip_err_bound: true, skip_subs_at: dup.clone(), skip_metrics: suspicious_metrics(c.nodes, c.docs, parts, false), lenient_empty_composite: composite_below_mdc0_terms(c.nodes, false), notes: vec![] };
                 if compare(tn, tc, &alt[ti..ti + 1], &mut cx3).is_ok() { explained = Some(i); break; }
             }
         }
@@ -875,6 +901,67 @@ fn probe_date_flag(ctx: &mut Ctx) {
     check_request(ctx, &mut rng, &corpus, &nodes, Q::Sel(0));
 }
 
+fn mk_corpus(docs: Vec<MDoc>, partitions: Vec<Vec<Vec<usize>>>) -> Corpus {
+    let segs = partitions.iter().map(|p| (p.clone(), build_index(&docs, p))).collect();
+    let split_parts = partitions.last().cloned().unwrap_or_default();
+    let idxs = split_parts.iter().map(|p| build_index(&docs, &[p.clone()])).collect();
+    Corpus { docs, segs, split: (split_parts, idxs) }
+}
+
+/// hand-written corpus: near-unique terms (300 distinct values of `u`, 240 once, 60 twice) with a
+/// small `size`: every `_count` / `_key` order, one segment (exact) and two segments (bounds)
+fn probe_near_unique_terms(ctx: &mut Ctx) {
+    let mut docs: Vec<MDoc> = vec![];
+    for i in 0..360usize {
+        let mut d: MDoc = vec![vec![]; NF];
+        d[Fd::U.id()] = vec![if i < 300 { i as i64 } else { (i - 300) as i64 * 5 }];
+        d[Fd::Kw.id()] = vec![kw_code_pub(if i < 200 { i } else { (i * 7) % 200 })];
+        d[Fd::Uid.id()] = vec![i as i64];
+        d[Fd::Sel.id()] = vec![(i % 3) as i64];
+        docs.push(d);
+    }
+    let all: Vec<usize> = (0..docs.len()).collect();
+    let halves = vec![(0..150).collect::<Vec<usize>>(), (150..360).collect()];
+    let corpus = mk_corpus(docs, vec![vec![all], halves]);
+    let mut rng = Rng::new(2);
+    let mut k = 0;
+    for field in [Fd::U, Fd::Kw] {
+        for order in [TOrd::CountAsc, TOrd::CountDesc, TOrd::KeyAsc, TOrd::KeyDesc] {
+            for (size, seg) in [(Some(5u32), None), (Some(2), Some(7u32)), (None, Some(30))] {
+                k += 1;
+                let nodes = vec![Node { name: format!("a{k}"), agg: Agg::Terms { field, size, seg, mdc: None, order: Some(order.clone()), missing: None }, subs: vec![], opt: Opt::default() }];
+                ctx.report.count("probe:near-unique-terms");
+                check_request(ctx, &mut rng, &corpus, &nodes, if k % 2 == 0 { Q::All } else { Q::Sel(0) });
+            }
+        }
+    }
+}
+
+/// hand-written corpus: extended_stats with a non-default sigma below terms(min_doc_count 0); the
+/// zero-count placeholder bucket of one partition is merged with real buckets in both orders
+fn probe_sigma_placeholder(ctx: &mut Ctx) {
+    let mk = |kw: usize, sel: i64, u: Option<i64>, uid: i64| -> MDoc {
+        let mut d: MDoc = vec![vec![]; NF];
+        d[Fd::Kw.id()] = vec![kw_code_pub(kw)];
+        d[Fd::Sel.id()] = vec![sel];
+        if let Some(u) = u { d[Fd::U.id()] = vec![u]; }
+        d[Fd::Uid.id()] = vec![uid];
+        d
+    };
+    let docs = vec![mk(0, 1, Some(9), 0), mk(1, 0, Some(7), 1), mk(1, 0, Some(7), 2), mk(0, 0, Some(1), 3), mk(0, 0, Some(2), 4), mk(0, 0, Some(3), 5), mk(0, 0, Some(4), 6)];
+    let a = vec![0usize, 1, 2];
+    let b = vec![3usize, 4, 5, 6];
+    let corpus = mk_corpus(docs, vec![vec![(0..7).collect()], vec![b.clone(), a.clone()], vec![a, b]]);
+    let mut rng = Rng::new(3);
+    for s4 in [12i64, 4, 1] {
+        let mut ext = Node { name: "a2".into(), agg: Agg::Metric { kind: MK::ExtStats, field: Fd::U, missing: None, desc: false, k: 1 }, subs: vec![], opt: Opt::default() };
+        ext.opt.sigma4 = Some(s4);
+        let nodes = vec![Node { name: "a1".into(), agg: Agg::Terms { field: Fd::Kw, size: None, seg: None, mdc: Some(0), order: Some(TOrd::KeyAsc), missing: None }, subs: vec![ext], opt: Opt::default() }];
+        ctx.report.count("probe:extended-stats-sigma-placeholder");
+        check_request(ctx, &mut rng, &corpus, &nodes, Q::Sel(0));
+    }
+}
+
 fn gen_query(rng: &mut Rng) -> Q {
     match rng.below(4) { 0 | 1 => Q::All, 2 => Q::Sel(rng.below(3)), _ => Q::Cat(rng.below(5) as i64) }
 }
@@ -935,6 +1022,8 @@ pub fn run(ctx: &mut Ctx) {
     }
     probe_tophits_flush(ctx);
     probe_date_flag(ctx);
+    probe_near_unique_terms(ctx);
+    probe_sigma_placeholder(ctx);
     let corpora = ctx.budget(60, 2000);
     let reqs_per = ctx.budget(7, 12);
     for ci in 0..corpora {
@@ -945,6 +1034,7 @@ pub fn run(ctx: &mut Ctx) {
         ctx.report.count(&format!("corpus:multi-valued-p{}", prof.multi));
         ctx.report.count(&format!("corpus:missing-p{}", prof.missing));
         ctx.report.count(if prof.deleted > 0 { "corpus:with-deleted-documents" } else { "corpus:no-deletes" });
+        if prof.near_unique { ctx.report.count("corpus:near-unique-terms"); }
         let nseg = 1 + (ci as usize % 6).max(1).min(if ctx.thorough() { 6 } else { 4 });
         let corpus = build_corpus(&mut rng, docs, nseg);
         for ri in 0..reqs_per {
